@@ -210,6 +210,7 @@ func (c *SimContext) Fired() bool { return c.fired }
 //go:norace
 func (c *SimContext) Advance(n int64) {
 	c.Clock += n
+	advanceMono(n * 1000)
 	if !c.fired && c.CancelAt >= 0 && c.Clock > c.CancelAt {
 		c.fire()
 	}
@@ -284,6 +285,7 @@ func (c *SimContext) tick() {
 	}
 	c.Ticks++
 	c.Clock++
+	advanceMono(1000)
 	if !c.fired {
 		if c.CancelAt >= 0 && c.Clock > c.CancelAt {
 			c.fire()
@@ -359,17 +361,6 @@ func (c *SimContext) Done() <-chan struct{} {
 func (c *SimContext) Err() error {
 	c.poll()
 	return c.err
-}
-
-// peekNow reads the simulated clock without counting as a reading.
-//
-//go:norace
-func peekNow() time.Time {
-	var ticks int64
-	if c := current(); c != nil {
-		ticks = c.Clock
-	}
-	return simEpoch.Add(time.Duration(simOffset) + time.Duration(ticks)*time.Microsecond)
 }
 
 // Deadline implements context.Context.
